@@ -40,6 +40,8 @@ def tok_inputs(spec, fam=None):
     fam = fam or family_of(spec)
     R1D, Z1D, psi2D, psi1D, fpol1D, pres = fam.arrays()
     wall = families.make_wall(spec.get("wall"), mirror=fam.mirror)
+    if spec.get("wall_points") is not None:
+        wall = [tuple(p) for p in spec["wall_points"]]
     return dict(R1D=R1D, Z1D=Z1D, psi2D=psi2D, psi1D=psi1D, fpol1D=fpol1D, pressure=pres, wall=wall)
 
 
@@ -112,14 +114,95 @@ def build_tok(spec, workdir, keep_inputs=None):
     elif via == "geqdsk":
         gpath = os.path.join(workdir, "input.geqdsk")
         write_geqdsk_file(gpath, inp, fam)
+        mutate_text_file(gpath, spec.get("geqdsk_mutation"))
         with open(gpath, "rt") as fh:
             eq = tokamak.read_geqdsk(fh, settings=dict(opts), nonorthogonal_settings=dict(opts))
         if isinstance(eq, tuple):
             raise eq[1]
     else:
         raise ValueError(via)
-    mesh = BoutMesh(eq, dict(opts))
+    mesh_opts = dict(opts)
+    mesh_opts.update(spec.get("mesh_opts_override", {}))
+    mesh = BoutMesh(eq, mesh_opts)
     return eq, mesh, fam, inp
+
+
+def mutate_text_file(path, mut):
+    """Hostile edits of a geqdsk text file: truncate, corrupt a field, drop a line."""
+    if not mut:
+        return
+    with open(path) as f:
+        txt = f.read()
+    kind = mut.get("kind")
+    if kind == "truncate":
+        txt = txt[: int(len(txt) * float(mut.get("frac", 0.5)))]
+    elif kind == "garbage":
+        lines = txt.split("\n")
+        k = int(mut.get("line", 10)) % len(lines)
+        lines[k] = lines[k][:16] + "  NOT_A_NUMBER  " + lines[k][32:]
+        txt = "\n".join(lines)
+    elif kind == "dropline":
+        lines = txt.split("\n")
+        del lines[int(mut.get("line", 10)) % len(lines)]
+        txt = "\n".join(lines)
+    elif kind == "nan":
+        lines = txt.split("\n")
+        k = int(mut.get("line", 10)) % len(lines)
+        lines[k] = "             NaN" + lines[k][16:]
+        txt = "\n".join(lines)
+    elif kind == "empty":
+        txt = ""
+    with open(path, "w") as f:
+        f.write(txt)
+
+
+def build_example(spec, workdir):
+    """The shipped examples/tokamak/tokamak_example.py, run the way its __main__ does."""
+    import importlib.util
+
+    import yaml
+    from hypnotoad import tokamak
+    from hypnotoad.core.mesh import BoutMesh
+
+    from .env import REPO
+
+    exdir = os.path.join(REPO, "examples", "tokamak")
+    sp = importlib.util.spec_from_file_location("tokamak_example_verif", os.path.join(exdir, "tokamak_example.py"))
+    mod = importlib.util.module_from_spec(sp)
+    sp.loader.exec_module(mod)
+    geometry = spec["geometry"]
+    if "sn" in geometry:
+        filename = "single-null.yaml"
+    elif geometry == "cdn":
+        filename = "connected-double-null.yaml"
+    else:
+        filename = "disconnected-double-null.yaml"
+    with open(os.path.join(exdir, filename)) as f:
+        options = yaml.safe_load(f)
+    options.update(spec.get("opts", {}))
+    r1d, z1d, psi2d, psi1d = mod.create_tokamak(geometry=geometry, nx=65, ny=65)
+    wall_extra = 0.2
+    rmin, rmax = min(r1d) + wall_extra, max(r1d) - wall_extra
+    zmin, zmax = min(z1d) + wall_extra, max(z1d) - wall_extra
+    eq = tokamak.TokamakEquilibrium(r1d, z1d, psi2d, psi1d, fpol1D=[], settings=options, wall=[(rmin, zmin), (rmin, zmax), (rmax, zmax), (rmax, zmin)])
+    mesh = BoutMesh(eq, options)
+    return eq, mesh
+
+
+def run_cli(script, args, cwd):
+    """Runs one of the real command-line main() functions in-process."""
+    import importlib
+
+    mod = importlib.import_module("hypnotoad.scripts." + script)
+    old_argv = sys.argv
+    old_cwd = os.getcwd()
+    sys.argv = [script] + list(args)
+    os.chdir(cwd)
+    try:
+        mod.main()
+    finally:
+        sys.argv = old_argv
+        os.chdir(old_cwd)
 
 
 def run_cli_geqdsk(gfile, yamlfile, cwd):
